@@ -77,6 +77,8 @@ func report(eng *Engine, units []*Unit, start time.Time, workdir string, timeout
 	broken := false
 	var skipped []string
 	canaries, canaryOK := 0, 0
+	siteCanaries := 0
+	siteBefore := map[string]string{}
 	for _, u := range units {
 		if u.Assumed {
 			assumed = append(assumed, fmt.Sprintf("%s: contract assumed (%s)", u.Name, u.Contract.Flags["assumed"]+u.Contract.Flags["trusted"]))
@@ -114,6 +116,18 @@ func report(eng *Engine, units []*Unit, start time.Time, workdir string, timeout
 		for _, ob := range u.Obligs {
 			if ob.Status == "skipped" {
 				skipped = append(skipped, ob.Name)
+				continue
+			}
+			if ob.Kind == "canary-before" {
+				siteBefore[strings.Replace(ob.Name, "#canary-before(", "#canary-after(", 1)] = ob.Status
+				continue
+			}
+			if ob.Kind == "canary-after" {
+				siteCanaries++
+				if ob.Status == "unsat" && siteBefore[ob.Name] == "sat" {
+					fmt.Printf("VACUOUS %s: reachable before a call but not after it: the callee's assumed postconditions contradict what is known (%s)\n", u.Name, ob.Name)
+					broken = true
+				}
 				continue
 			}
 			if ob.Kind == "canary" {
@@ -214,7 +228,7 @@ func report(eng *Engine, units []*Unit, start time.Time, workdir string, timeout
 				"termination_unproved": termUnproved,
 				"undecided":    undecided,
 				"thorough_only_skipped": append(skipped, skippedUnits...),
-				"vacuity": map[string]int{"canaries": canaries, "reachable_confirmed": canaryOK},
+				"vacuity": map[string]int{"canaries": canaries, "reachable_confirmed": canaryOK, "call_site_pairs_checked": siteCanaries},
 				"known_findings": knownLines,
 				"contracts_source": eng.cs.Source,
 				"translation_drops": "goroutines/channels/select rejected; maps abstracted; float arithmetic uninterpreted unless contract is marked fp; opaque calls havoc",
